@@ -515,3 +515,34 @@ pub fn raw_unsat(name: &str, key: &str, body: &str) -> bool {
         }
     }
 }
+
+/// Install the consistency oracle: after a path has deviated from the shadow values, every later decision
+/// whose outcome is already forced by the recorded path condition takes the forced outcome (one or two small
+/// solver queries per decision).  Keeps flipped paths feasible in harnesses whose later decisions depend on
+/// the flipped fact.
+pub fn consistent_paths(on: bool) {
+    if !on {
+        sx::set_consistency_oracle(None);
+        return;
+    }
+    sx::set_consistency_oracle(Some(Box::new(|f: &F| {
+        let h = hyps();
+        let gv = solver::formula_vars(f);
+        let base = if gv.is_empty() { h.clone() } else { solver::slice(&h, &gv) };
+        let mut a1 = base.clone();
+        a1.push(f.clone().not());
+        let r1 = ctx(|c| c.solvers.check("consistency", &a1, 3000, false));
+        ctx(|c| c.solver_ms += r1.ms);
+        if r1.answer == Answer::Unsat {
+            return Some(true);
+        }
+        let mut a2 = base;
+        a2.push(f.clone());
+        let r2 = ctx(|c| c.solvers.check("consistency", &a2, 3000, false));
+        ctx(|c| c.solver_ms += r2.ms);
+        if r2.answer == Answer::Unsat {
+            return Some(false);
+        }
+        None
+    })));
+}
